@@ -12,6 +12,14 @@ use crate::dictionary::mapper::ConnIdMapper;
 use crate::errors::Result;
 use crate::num::U31;
 
+#[cfg(vibrato_verif)]
+thread_local! {
+    /// Verification hook: template positions that the last `from_readers` call of this thread
+    /// put into the matrix part.
+    static VERIF_LAST_SPLIT: std::cell::RefCell<Vec<usize>> =
+        std::cell::RefCell::new(vec![]);
+}
+
 #[derive(Decode, Encode)]
 pub struct DualConnector {
     matrix_connector: MatrixConnector,
@@ -20,6 +28,14 @@ pub struct DualConnector {
     right_feat_ids: Vec<U31x8>,
     left_feat_ids: Vec<U31x8>,
     raw_scorer: Scorer,
+}
+
+#[cfg(vibrato_verif)]
+impl DualConnector {
+    /// Verification hook: see `VERIF_LAST_SPLIT`.
+    pub fn verif_last_split() -> Vec<usize> {
+        VERIF_LAST_SPLIT.with(|c| c.borrow().clone())
+    }
 }
 
 impl DualConnector {
@@ -180,6 +196,8 @@ impl DualConnector {
                 raw_indices.push(i);
             }
         }
+        #[cfg(vibrato_verif)]
+        VERIF_LAST_SPLIT.with(|c| *c.borrow_mut() = matrix_indices.clone());
 
         let (matrix_connector, right_conn_id_map, left_conn_id_map) = Self::create_matrix_connector(
             &right_feat_ids_tmp,
